@@ -189,7 +189,7 @@ def run(ctx):
     ntr = 30 if big else 8
     for j in range(ntr):
         cdc, els = ladder(rnd)
-        ppd = rnd.randint(5, 20)
+        ppd = rnd.choice([5, 6, rnd.randint(5, 20), rnd.randint(5, 20)])
         f = np.logspace(6, -3, 9 * ppd + 1)
         Z = parse_cdc(cdc).get_impedances(f)
         Rpol = sum(e[1] for e in els)
@@ -213,6 +213,14 @@ def run(ctx):
         if not (AREA_LO <= area <= AREA_HI):
             ctx.add_failing("area-not-resistance", inp, observed=f"integral of gamma over ln(tau) = {area:.4g} x R_pol", expected=f"[{AREA_LO}, {AREA_HI}] x R_pol", clause="integrates over ln(tau) to the polarisation resistance")
         pt, pg = r.get_peaks()
+        # the peaks reported are the maxima of the distribution returned: every strict local maximum of gamma is among them
+        gp = np.concatenate([[0.0], g, [0.0]])
+        maxima = [float(tau[i]) for i in range(len(g)) if gp[i] < gp[i + 1] > gp[i + 2]]
+        lost = [m_ for m_ in maxima if not any(abs(math.log10(p / m_)) < 1e-9 for p in pt)]
+        ctx.count("oracle:tr-nnls:maxima-vs-peaks")
+        if lost:
+            ctx.add_failing("maximum-not-reported-as-peak", inp, observed=f"maxima of gamma at tau = {lost} are not in get_peaks() = {np.array(pt).tolist()}", expected="every local maximum of gamma(tau)",
+                            clause="has its peaks at the time constants R*C of the generating elements")
         for (t, R, n_) in els:
             dev = min((abs(math.log10(p / t)) for p in pt), default=9.0)
             worst["peak"] = max(worst["peak"], dev)
@@ -303,6 +311,32 @@ def run(ctx):
             ctx.add_failing("mrq-element-peak", inp, observed=f"maximum at tau = {peak!r}", expected=f"(R*Y)^(1/n) = {t0_!r} (grid step 0.01 decades)", clause="has its peaks at the time constants R*C of the generating elements")
         if (g < 0).any():
             ctx.add_failing("negative-gamma", inp, observed=f"min gamma {g.min()!r}", expected=">= 0", clause="the m(RQ)fit distribution of each element")
+    # several elements, in every order of (RC) and (RQ): the distribution is the sum of the single-element distributions (each of which was
+    # checked above), so every element keeps its own area and peak whatever stands before it in the circuit
+    for j in range(30 if big else 10):
+        units = []
+        for _ in range(rnd.randint(2, 3)):
+            R, t0_ = 10 ** rnd.uniform(-1, 4), 10 ** rnd.uniform(-4, 1)
+            if rnd.random() < 0.5:
+                units.append("(R{R=%r}C{C=%r})" % (R, t0_ / R))
+            else:
+                n_ = rnd.uniform(0.6, 0.98)
+                units.append("(R{R=%r}Q{Y=%r,n=%r})" % (R, t0_ ** n_ / R, n_))
+        W = rnd.choice([0.1, 0.15, 0.3])
+        cdc = "R{R=1}" + "".join(units)
+        inp = {"cdc": cdc, "gaussian_width": W}
+        ctx.note_case(("mrq-sum", cdc, W))
+        ctx.count("oracle:mrq-sum-of-elements")
+        try:
+            tau, g = MF._calculate_tau_gamma(parse_cdc(cdc), fw, W, 100)
+            parts = [MF._calculate_tau_gamma(parse_cdc("R{R=1}" + u), fw, W, 100) for u in units]
+        except Exception as x:  # noqa
+            ctx.add_failing("drt-raises", inp, observed=f"{type(x).__name__}: {x}"[:200], expected="a distribution", clause="m(RQ)fit")
+            continue
+        total = sum(p[1] for p in parts)
+        if any(not np.allclose(p[0], tau, rtol=1e-12) for p in parts) or not np.allclose(g, total, rtol=1e-9, atol=1e-12 * float(np.max(total))):
+            ctx.add_failing("mrq-not-the-sum-of-its-elements", inp, observed=f"max deviation {float(np.max(np.abs(g - total)) / np.max(total)):.3g} of the maximum", expected="gamma(circuit) = sum of gamma(element)",
+                            clause="the m(RQ)fit distribution of each element integrates to that element's resistance ... has its peaks at the time constants R*C of the generating elements")
     # the whole method on a ladder (fit included)
     for j in range(4 if big else 1):
         cdc, els = ladder(rnd, kinds=("C", "Q"), nmax=2)
